@@ -146,3 +146,17 @@ macro_rules! for_each_k_small {
         $crate::with_ks!($f, $crate::Degen, $s, [7, 64], $ctx);
     }};
 }
+
+/// k-mers that need more than one machine word (u128 storage only), small set for reduced budgets
+#[macro_export]
+macro_rules! for_each_k_small128 {
+    ($f:ident, $ctx:expr) => {{
+        $crate::with_ks!($f, $crate::Dna, u128, [33, 64], $ctx);
+        $crate::with_ks!($f, $crate::Iupac, u128, [17, 32], $ctx);
+        $crate::with_ks!($f, $crate::Amino, u128, [11, 21], $ctx);
+        $crate::with_ks!($f, $crate::Text, u128, [9, 16], $ctx);
+        $crate::with_ks!($f, $crate::MDna, u128, [17], $ctx);
+        $crate::with_ks!($f, $crate::MIupac, u128, [13, 25], $ctx);
+        $crate::with_ks!($f, $crate::Degen, u128, [65, 128], $ctx);
+    }};
+}
